@@ -26,6 +26,8 @@ def seeded_table():
                 res.append(f"{p} {tier}: " + ("**caught**" if v.get("detected") else "missed"))
         needs = (m.get("needs_to_manifest") or "").replace("|", "/").replace("\n", " ")
         summ = (m.get("summary") or "").replace("|", "/").replace("\n", " ")
+        if m.get("obsolete"):
+            res = ["obsolete: " + m["obsolete"][:160]]
         rows.append(f"| {sid} | {summ[:260]} | {needs[:200]} | {'; '.join(res) or 'not run'} |")
     return "| id | change | needs to manifest | checks |\n|---|---|---|---|\n" + "\n".join(rows)
 
